@@ -72,21 +72,26 @@ def main():
                                      ['C03', 'C10', 'C01'], shards=1)
         print('binding: corrupted record %s -> rejected for C03: %s' % (victim, bad['C03']))
         ok = ok and victim is not None and bad['C03'] == [victim]
-        # 3. coverage of the named actions
-        open(os.path.join(d, 'MCrun.tla'), 'w').write('---- MODULE MCrun ----\nEXTENDS MC_ArgParse\nc_POptSets == {<<"HelpFlag", "PassDoubleDash", "PrintErrors">>, <<"IgnoreUnknown", "PassAfterNonOption">>}\n====\n')
-        cfg = ('SPECIFICATION Spec\nCONSTANTS\n  Defects = {}\n  DeclIds = {3, 4}\n  MaxLen = 2\n  POptSets <- c_POptSets\n  Handlers = {"none"}\n'
-               '  Policy = {"opts", "cmds", "odd", "unknown"}\n  PreMode = "none"\n  Emit = FALSE\nINVARIANTS Deterministic Conservation\nCHECK_DEADLOCK FALSE\n')
-        rc, out = ctx.tlc(d, 'MCrun', cfg, workers=NCPU, timeout=1200, extra=['-coverage', '1'])
+        # 3. coverage of the named actions.  (TLC's own -coverage instrumentation does not get past start-up on this specification;
+        #    the loop is deterministic, so the action taken in a state is the one enabled there: an invariant tallies it.)
+        open(os.path.join(d, 'MCrun.tla'), 'w').write(
+            '---- MODULE MCrun ----\nEXTENDS MC_ArgParse\n'
+            'c_POptSets == {<<"HelpFlag", "PassDoubleDash", "PrintErrors">>, <<"IgnoreUnknown", "PassAfterNonOption">>}\n'
+            'TallyInit == TLCSet(5, [i \\in 1..Len(ActionNames) |-> 0])\n'
+            'Tally == IF st.phase = "done" THEN TRUE\n'
+            '         ELSE LET i == CHOOSE i \\in EnabledSet(st) : TRUE IN TLCSet(5, [TLCGet(5) EXCEPT ![i] = @ + 1])\n'
+            'TallyPost == PrintT(<<"VERIF-TALLY", [i \\in 1..Len(ActionNames) |-> <<ActionNames[i], TLCGet(5)[i]>>]>>)\n'
+            'ASSUME TallyInit\n====\n')
+        cfg = ('SPECIFICATION Spec\nCONSTANTS\n  Defects = {}\n  DeclIds = {3, 4, 7}\n  MaxLen = 2\n  POptSets <- c_POptSets\n  Handlers = {"none"}\n'
+               '  Policy = {"opts", "cmds", "clusters", "odd", "unknown"}\n  PreMode = "none"\n  Emit = FALSE\nINVARIANTS Deterministic Conservation Tally\nPOSTCONDITION TallyPost\nCHECK_DEADLOCK FALSE\n')
+        rc, out = ctx.tlc(d, 'MCrun', cfg, workers=1, timeout=1200)
         names = ['Start', 'Terminator', 'PassAfterNonOption', 'NonOptPositional', 'NonOptCommand', 'NonOptUnknownCommand', 'NonOptRest', 'LongOpt', 'ShortBegin',
                  'ShortRune', 'LoopEnd', 'ApplyDefaults', 'CheckRequired', 'DiagnoseCommand', 'Dispatch', 'SkipToReturn', 'Return']
-        never = []
-        for nme in names:
-            m = re.findall(r'<%s line .*?>: (\d+):(\d+)' % nme, out)
-            total = sum(int(a) for a, b in m) if m else 0
-            if total == 0:
-                never.append(nme)
+        tally = dict((a, int(n)) for a, n in re.findall(r'<<"(\w+)", (\d+)>>', out[out.find('VERIF-TALLY'):] if 'VERIF-TALLY' in out else ''))
+        print('coverage: states per action:', tally)
+        never = [n for n in names if tally.get(n, 0) == 0]
         print('coverage: actions never taken:', never)
-        ok = ok and not never
+        ok = ok and bool(tally) and not never
     except Infra as e:
         print('INFRA', e)
         ok = False
